@@ -47,6 +47,9 @@ def _run(s, X, y, dfd, pend, fi, storage, **kw):
 def _compare(f, clause, prob, w1, w2, ok1, ok2, tol_obj=1e-7, tol_w=1e-5, unique_clause=None):
     """both coefficient vectors are in the coordinates of `prob`"""
     both = bool(ok1 and ok2 and w1 is not None and w2 is not None)
+    # the catalogue problems are small and well conditioned: both members reach their tolerance within the default
+    # budgets (they all do on the repaired tree); a member that stops converging is not "giving the same result"
+    f.flag("converges", both)
     if not both:
         f.le(clause, 0.0, 0.0, when=False)
         return
@@ -171,6 +174,8 @@ def run_c14(inst, seed, tid):
             yc = gen.target(rng, Xc, "reg", offset=0.0)
             alc = 0.02 * _amax(Xc, yc, Q, False)
             pen = {"kind": "L1", "alpha": alc, "positive": False}
+            if fi:      # (GramCD has no intercept: the flag selects an index-dependent penalty instead)
+                pen = {"kind": "WeightedL1", "alpha": alc, "weights": rng.uniform(0.3, 3.0, p).tolist(), "positive": False}
             kw = dict(use_acc=kind == "gram_vs_cd_acc", greedy_cd=kind == "gram_greedy_vs_cyclic", max_iter=20000)
             a = _run("GramCD", Xc, yc, None, pen, False, st, **kw)
             b = _run("AndersonCD", Xc, yc, Q, pen, False, st)
@@ -230,7 +235,7 @@ def run_c14(inst, seed, tid):
 def _sym_problem(solver, rng, fi):
     """-> X, y, solver name, dfd, pend, kw, extra"""
     s = solver
-    if s in ("AndersonCD_Logistic", "ProxNewton_Logistic", "GroupProxNewton"):
+    if s in ("AndersonCD_Logistic", "ProxNewton_Logistic", "ProxNewton_WeightedL1", "GroupProxNewton"):
         X, y = _data(rng, "clf")
     elif s == "ProxNewton_Cox":
         X, y = _data(rng, "surv")
@@ -254,6 +259,12 @@ def _sym_problem(solver, rng, fi):
         dfd = {"kind": "Quadratic"}
         pend = {"kind": "MCPenalty", "alpha": 0.1 * _amax(X, y, dfd, fi), "gamma": 8.0, "positive": False}
         name = "AndersonCD"
+    elif s == "ProxNewton_WeightedL1":
+        dfd = {"kind": "Logistic"}
+        w = rng.uniform(0.3, 2.5, p)
+        w[rng.choice(p, 2, replace=False)] = 0.0
+        pend = {"kind": "WeightedL1", "alpha": 0.1 * _amax(X, y, dfd, fi), "weights": w.tolist(), "positive": False}
+        name = "ProxNewton"
     elif s in ("AndersonCD_Logistic", "ProxNewton_Logistic"):
         dfd = {"kind": "Logistic"}
         pend = {"kind": "L1", "alpha": 0.1 * _amax(X, y, dfd, fi), "positive": False}
@@ -797,7 +808,7 @@ def _skglm_solve_reg(s, X, y, Q, pend, fi, st, al, l1r, positive):
 
 
 FN = {"C02": "run_c02", "C14": "run_c14", "C15": "run_c15", "C16": "run_c16"}
-MINE = {"C02": {"agree", "unique_same_w", "runs"}, "C14": {"agree", "runs"}, "C15": {"equivariant", "runs"},
+MINE = {"C02": {"agree", "unique_same_w", "runs"}, "C14": {"agree", "runs", "converges"}, "C15": {"equivariant", "runs", "converges"},
         "C16": {"alpha_max_eq", "null", "nonnull", "null_unpenalised_optimal", "runs"}}
 QUICK_N = {"C02": 70, "C14": 84, "C15": 90, "C16": 70}
 
